@@ -667,6 +667,11 @@ fn x1_path(p: &mut syn::Path, qself: &mut Option<syn::QSelf>) -> bool {
             rename_first(p, "Sc");
             return true;
         }
+        // X1: String / str -> the abstract name type of the prelude
+        "String" | "str" if n == 1 => {
+            rename_first(p, "Name");
+            return true;
+        }
         _ => {}
     }
     false
@@ -691,10 +696,35 @@ impl<'ast> syn::visit::Visit<'ast> for HasEarlyExit {
     }
 }
 
+/// X16: reference patterns `&x` (x a plain binding) inside a match-arm / if-let pattern are not in the Verus dialect:
+/// the pattern binds `__r_x` (the reference) and `let x = *__r_x;` is put in front of the guard and of the body
+/// (what the reference pattern is defined to do for the Copy types it is legal on).
+struct RefPats(Vec<(syn::Ident, syn::Ident)>);
+impl VisitMut for RefPats {
+    fn visit_pat_mut(&mut self, p: &mut Pat) {
+        if let Pat::Reference(r) = p {
+            if let Pat::Ident(pi) = &*r.pat {
+                if pi.subpat.is_none() && pi.by_ref.is_none() && r.mutability.is_none() {
+                    let x = pi.ident.clone();
+                    let rx = syn::Ident::new(&format!("__r_{}", x), Span::call_site());
+                    self.0.push((x, rx.clone()));
+                    *p = parse_quote!(#rx);
+                    return;
+                }
+            }
+        }
+        visit_mut::visit_pat_mut(self, p);
+    }
+}
+fn x16_lets(b: &[(syn::Ident, syn::Ident)]) -> Vec<Stmt> {
+    b.iter().map(|(x, rx)| -> Stmt { parse_quote!(let #x = *#rx;) }).collect()
+}
+
 struct Pass {
     x7_off: bool,
     iterarg: Vec<String>,
     into_fn: Option<String>,
+    asref_fn: Option<String>,
     box_count: usize,
     kinds: BTreeMap<String, Kind>,
     field_kinds: BTreeMap<String, Kind>,
@@ -1041,6 +1071,39 @@ impl VisitMut for Pass {
         if let Some(n) = self.x12(e) {
             *e = n;
         }
+        // X16 (pre-order): reference patterns in match arms and if-let
+        match e {
+            Expr::Match(m) => {
+                for arm in m.arms.iter_mut() {
+                    let mut rp = RefPats(vec![]);
+                    rp.visit_pat_mut(&mut arm.pat);
+                    if !rp.0.is_empty() {
+                        let lets = x16_lets(&rp.0);
+                        if let Some((_, g)) = arm.guard.as_mut() {
+                            let old = (**g).clone();
+                            **g = parse_quote!({ #(#lets)* #old });
+                        }
+                        let old = (*arm.body).clone();
+                        arm.body = Box::new(parse_quote!({ #(#lets)* #old }));
+                        self.rw.note("X16", line);
+                    }
+                }
+            }
+            Expr::If(i) => {
+                if let Expr::Let(l) = &mut *i.cond {
+                    let mut rp = RefPats(vec![]);
+                    rp.visit_pat_mut(&mut l.pat);
+                    if !rp.0.is_empty() {
+                        let lets = x16_lets(&rp.0);
+                        for (k, st) in lets.into_iter().enumerate() {
+                            i.then_branch.stmts.insert(k, st);
+                        }
+                        self.rw.note("X16", line);
+                    }
+                }
+            }
+            _ => {}
+        }
         // pre-order handling of loops and closures so ordinals follow source order
         match e {
             Expr::ForLoop(f) => {
@@ -1252,6 +1315,12 @@ impl VisitMut for Pass {
                 *e = parse_quote!(#f(#r));
                 self.rw.note("X1", line);
             }
+            Expr::MethodCall(mc) if mc.method == "as_ref" && mc.args.is_empty() && self.asref_fn.is_some() => {
+                let f = syn::Ident::new(self.asref_fn.as_ref().unwrap(), Span::call_site());
+                let r = &mc.receiver;
+                *e = parse_quote!(#f(&#r));
+                self.rw.note("X1", line);
+            }
             Expr::MethodCall(mc) if mc.method == "contains" && mc.args.len() == 1 && matches!(&mc.args[0], Expr::Lit(l) if matches!(l.lit, syn::Lit::Char(_))) => {
                 let (r, c) = (&mc.receiver, &mc.args[0]);
                 *e = parse_quote!(__vp_str_contains_char(&#r, #c));
@@ -1389,6 +1458,7 @@ pub fn extract(ast: &syn::File, file: &str, spec: &FnSpec, pr: &mut Printer) -> 
         x7_off: spec.attrs.contains_key("x7off"),
         iterarg: spec.attrs.get("iterarg").map(|s| s.split(',').map(|x| x.to_string()).collect()).unwrap_or_default(),
         into_fn: spec.attrs.get("into").cloned(),
+        asref_fn: spec.attrs.get("asref").cloned(),
         box_count: 0,
         kinds: BTreeMap::new(),
         field_kinds,
